@@ -1117,16 +1117,17 @@ class ConfigInformation:
                 "is_folder": value.is_folder,
             }
 
-        elif isinstance(value, (int, float, str)):
-            return value
-
         elif isinstance(value, Enum):
+            # (before the scalar types: an IntEnum is an int, a str-based Enum is a str)
             return {
                 "type": "enum",
                 "module": value.__class__.__module__,
                 "enum": value.__class__.__qualname__,
                 "value": value.name,
             }
+
+        elif isinstance(value, (int, float, str)):
+            return value
 
         elif isinstance(value, Config):
             return {
